@@ -47,6 +47,7 @@ func (s *SW) StepBlock(dt time.Duration) (*RewardObs, error) {
 		return nil, fmt.Errorf("observe: %w", err)
 	}
 	ro.PostBal = c.Snapshot()
+	s.paging()
 	cw := c.App.StorageKeeper.GetParams(c.Ctx()).CheckWindow
 	ro.IsReward = cw > 0 && c.Height%cw == 0
 	mod := storageModAddr()
